@@ -183,12 +183,24 @@ class TaintDomain:
                 return self.taint(e.args[0], st)
             if isinstance(f, ast.Attribute) and f.attr in ("strip", "lstrip", "rstrip", "lower", "upper", "title", "encode", "decode", "format"):
                 return self.taint(f.value, st)
-            if isinstance(f, ast.Attribute) and f.attr == "replace":
-                base = self.taint(f.value, st)
-                consts = all(isinstance(self.ctx.prog.const(self.fi.module, a), str) for a in e.args)
-                if consts:
-                    return base  # replacement of constant literals (the documented inline-para workaround) keeps the status
-                return {(src, None) for (src, _s) in base} | {x for a in e.args for x in self.taint(a, st)}
+            if isinstance(f, ast.Attribute) and f.attr in ("replace", "translate"):
+                # a hand-written escaper: a chain of replace() calls / a translate() table neutralising the markup characters
+                covered, root = self.neutralised(e)
+                base = self.taint(root, st)
+                if covered is not None and base:
+                    if {"&", "<", ">"} <= covered and '"' in covered:
+                        return {(src, "attr") for (src, _s) in base}
+                    if {"&", "<", ">"} <= covered:
+                        return {(src, "text" if _s is None else _s) for (src, _s) in base}
+                    if covered & {"&", "<", ">", '"'}:
+                        return {(src, None) for (src, _s) in base}  # partial escaping is no escaping
+                if f.attr == "replace":
+                    base = self.taint(f.value, st)
+                    consts = all(isinstance(self.ctx.prog.const(self.fi.module, a), str) for a in e.args)
+                    if consts:
+                        return base  # replacement of constant literals (the documented inline-para workaround) keeps the status
+                    return {(src, None) for (src, _s) in base} | {x for a in e.args for x in self.taint(a, st)}
+                return {(src, None) for (src, _s) in self.taint(f.value, st)}
             if isinstance(f, ast.Attribute) and f.attr == "join" and e.args:
                 return set()  # pieces are checked where they are assembled
             if isinstance(f, ast.Attribute) and f.attr == "get" and e.args:
@@ -208,6 +220,8 @@ class TaintDomain:
             out = set()
             for a in e.args:
                 out |= self.taint(a, st)
+            if isinstance(f, ast.Attribute):
+                out |= {(src, None) for (src, _s) in self.taint(f.value, st)}  # an unknown method of a tainted value returns tainted text
             return out
         if isinstance(e, ast.IfExp):
             return self.taint(e.body, st) | self.taint(e.orelse, st)
@@ -216,6 +230,36 @@ class TaintDomain:
         if isinstance(e, ast.FormattedValue):
             return self.taint(e.value, st)
         return set()
+
+    def neutralised(self, e):
+        """(set of characters a replace-chain / translate call turns into entity references, innermost receiver)"""
+        covered = set()
+        cur = e
+        ok = False
+        while isinstance(cur, ast.Call) and isinstance(cur.func, ast.Attribute) and cur.func.attr in ("replace", "translate"):
+            if cur.func.attr == "replace" and len(cur.args) >= 2:
+                a = self.ctx.prog.const(self.fi.module, cur.args[0])
+                b = self.ctx.prog.const(self.fi.module, cur.args[1])
+                if isinstance(a, str) and isinstance(b, str) and len(a) == 1 and ENTITY.match(b):
+                    covered.add(a)
+                    ok = True
+            elif cur.func.attr == "translate" and cur.args:
+                t = self.ctx.prog.const(self.fi.module, cur.args[0])
+                if t is None or not isinstance(t, dict):
+                    # str.maketrans({...}) bound at module level
+                    a0 = cur.args[0]
+                    r = self.ctx.prog.resolve_name_expr(self.fi.module, a0) if isinstance(a0, (ast.Name, ast.Attribute)) else None
+                    call = r[1].consts.get(r[2]) if r and r[0] == "const" else a0
+                    if isinstance(call, ast.Call) and isinstance(call.func, ast.Attribute) and call.func.attr == "maketrans" and call.args:
+                        t = self.ctx.prog.const(r[1] if r and r[0] == "const" else self.fi.module, call.args[0])
+                if isinstance(t, dict):
+                    for k, v in t.items():
+                        ch = chr(k) if isinstance(k, int) else k
+                        if isinstance(ch, str) and len(ch) == 1 and isinstance(v, str) and ENTITY.match(v):
+                            covered.add(ch)
+                            ok = True
+            cur = cur.func.value
+        return (covered if ok else None), cur
 
     # ---- assembly checks
     def _record(self, node, piece, context, st):
